@@ -1556,6 +1556,9 @@ MUTANTS += [
       "                [bound.contains(points) for bound in self.neural_bounds],\n                axis=0)",
       "                [bound.contains(points) for bound in self.neural_bounds],\n                axis=1)", 'C07 C08 C01'),
     M('one-seed-for-all-jobs', N, "2**32 - 1)).spawn(n_jobs)]", "2**32 - 1)).spawn(1) * n_jobs]", 'C08'),
+    M('construction-points-written-as-float32', U,
+      "            group.create_dataset('points_bound_{}'.format(i), data=points)",
+      "            group.create_dataset('points_bound_{}'.format(i), data=points,\n                                 dtype=np.float32)", 'C07 C09 C05'),
     M('prune-guard-all-empty', S, "                    if np.any(self.shell_n == 0):\n",
       "                    if np.all(self.shell_n == 0):\n", 'C12'),
 ]
